@@ -17,7 +17,7 @@ struct FeCfg {
     int samprate = 16000, frate = 100, nfft = 0, lifter = 0, ncep = 13, nfilt = 40;
     double wlen = 0.025625, upperf = 6855.4976, lowerf = 133.33334;
     std::string transform = "legacy";
-    bool remove_noise = true, remove_dc = false, logspec = false, smoothspec = false, round_filters = true, unit_area = true, doublebw = false;
+    bool remove_noise = true, remove_dc = false, logspec = false, smoothspec = false, round_filters = true, unit_area = true, doublebw = false, big_endian = false;
     int S() const { return (int)(wlen * samprate + 0.5); }
     int H() const { return (int)((double)samprate / frate + 0.5); }
 };
@@ -42,6 +42,7 @@ static FeCfg cfg_from(const Json &j)
     c.round_filters = j.getb("round_filters", true);
     c.unit_area = j.getb("unit_area", true);
     c.doublebw = j.getb("doublebw", false);
+    c.big_endian = j.getb("big_endian", false);
     return c;
 }
 
@@ -65,6 +66,7 @@ static Json cfg_json(const FeCfg &c)
     j.set("round_filters", c.round_filters);
     j.set("unit_area", c.unit_area);
     j.set("doublebw", c.doublebw);
+    j.set("big_endian", c.big_endian);
     return j;
 }
 
@@ -89,6 +91,7 @@ static fe_t *make_fe(const FeCfg &c)
     config_set_bool(cf, "unit_area", c.unit_area);
     config_set_bool(cf, "doublebw", c.doublebw);
     config_set_bool(cf, "dither", 0);
+    config_set_str(cf, "input_endian", c.big_endian ? "big" : "little");
     fe_t *fe = fe_init(cf);
     config_free(cf);
     return fe;
@@ -201,6 +204,7 @@ struct FeWorld : World {
         c.round_filters = r.chance(0.7);
         c.unit_area = r.chance(0.8);
         c.doublebw = r.chance(0.1);
+        c.big_endian = r.chance(0.15);
         plan.set("cfg", cfg_json(c));
         plan.set("rebuffer", (long long)r.below(3)); // 0 never, 1 always, 2 randomly per call
         int H = c.H();
@@ -504,6 +508,17 @@ struct FeWorld : World {
                     sigf.reserve(sig.size());
                     for (int16_t s : sig)
                         sigf.push_back((float)s / 32768.0f);
+                }
+                if (c.big_endian) { // the caller's data are in the declared byte order: same signal, other representation
+                    for (auto &f : sigf) {
+                        uint32_t u;
+                        memcpy(&u, &f, 4);
+                        u = __builtin_bswap32(u);
+                        memcpy(&f, &u, 4);
+                    }
+                    for (auto &v : sig)
+                        v = (int16_t)__builtin_bswap16((uint16_t)v);
+                    out.probes["fe.big_endian_input"]++;
                 }
                 fed = 0;
                 got.clear();
